@@ -150,6 +150,23 @@ def w_group(arg):
             acc.check(False, 'crystal-constructs', '%s: %s' % (type(ex).__name__, ex), sig='construct')
             return acc.result()
     group_contract(acc, c)
+    # the crystal owns its data: a later in-place edit of the arrays it was built from (a user scanning a lattice parameter in a
+    # loop, say) must not reach it -- the operations were computed for the lattice it had at construction
+    try:
+        from onsager import crystal as _cr
+        latt_in = np.array(c.lattice); basis_in = [[np.array(u) for u in b] for b in c.basis]
+        kw = {} if c.spins is None else {'spins': [[np.array(x) if np.ndim(x) else x for x in sp] for sp in c.spins]}
+        c2 = _cr.Crystal(latt_in, basis_in, list(c.chemistry), **kw)
+        snap = (c2.lattice.copy(), [[u.copy() for u in b] for b in c2.basis], c2.invlatt.copy(), c2.metric.copy())
+        latt_in[-1, -1] *= 1.37; latt_in[0, -1] += 0.11
+        for b in basis_in:
+            for u in b: u += 0.123
+        same = np.array_equal(c2.lattice, snap[0]) and all(np.array_equal(u, v) for b1, b2 in zip(c2.basis, snap[1]) for u, v in zip(b1, b2)) and \
+            np.array_equal(c2.invlatt, snap[2]) and np.array_equal(c2.metric, snap[3])
+        acc.check(same, 'crystal-unaffected-by-later-edits-of-the-arrays-it-was-built-from', '', sig='owns')
+        if len(c2.G) == len(c.G): group_contract(acc, c2, tag='(rebuilt from arrays that were then edited in place) ')
+    except Exception as ex:
+        acc.check(False, 'crystal-unaffected-by-later-edits-of-the-arrays-it-was-built-from', 'rebuilding raised %s: %s' % (type(ex).__name__, str(ex)[:200]), sig='owns')
     acc.sample = {'crystal': cid, 'dim': c.dim, 'atoms': c.N, 'group_order': len(c.G), 'spins': c.spins is not None,
                   'checked': 'isometry, lattice map, atom map = indexmap, spins, identity, closure under product and inverse'}
     return acc.result()
@@ -200,8 +217,19 @@ def site_contract(acc, c, cid, rng):
             orbits.add(frozenset(orb))
     acc.check(set(c.Wyckoff) == orbits, 'wyckoff-sets-are-orbits', '%r vs %r' % (sorted(map(sorted, c.Wyckoff)), sorted(map(sorted, orbits))), sig=('wy',))
     # Wyckoffpos: complete orbit without duplicates; adding it keeps the group
-    for trial in range(2):
-        u = rng.uniform(0.05, 0.45, c.dim) if trial == 0 else np.round(rng.uniform(0, 1, c.dim) * 4) / 4
+    # probe positions: a general one, a quarter-grid one, and special positions (points of the half-grid on the cell faces, the
+    # fixed points of individual operations, midpoints between an atom and its images) where images land exactly on a cell face
+    probes = [rng.uniform(0.05, 0.45, c.dim), np.round(rng.uniform(0, 1, c.dim) * 4) / 4]
+    half = [np.array(h) / 2. for h in itertools.product((0, 1), repeat=c.dim)]
+    probes += [half[k] for k in rng.permutation(len(half))[:3]]
+    Gl = sorted(c.G, key=lambda g: (g.rot.tobytes(), tuple(np.round(g.trans, 6))))
+    for g in [Gl[k] for k in rng.permutation(len(Gl))[:6]]:
+        A = g.rot - np.eye(c.dim); sol = np.linalg.lstsq(A, -g.trans, rcond=None)[0]
+        if np.abs(A @ sol + g.trans).max() < 1e-9: probes.append(sol - np.floor(sol + 1e-9))
+    u0 = c.basis[0][0]
+    for g in [Gl[k] for k in rng.permutation(len(Gl))[:3]]:
+        m = 0.5 * (u0 + g.rot @ u0 + g.trans); probes.append(m - np.floor(m + 1e-9))
+    for trial, u in enumerate(probes):
         pos = c.Wyckoffpos(u)
         spec = []
         for g in c.G:
@@ -209,6 +237,9 @@ def site_contract(acc, c, cid, rng):
             if not any(np.allclose(_inhalf(v - w), 0, atol=thr) for w in spec): spec.append(v)
         acc.check(len(pos) == len(spec) and all(any(np.allclose(_inhalf(v - w), 0, atol=thr) for w in pos) for v in spec),
                   'wyckoffpos-is-complete-orbit-without-duplicates', 'u=%r: %d positions, orbit has %d' % (u, len(pos), len(spec)), sig=('wp', len(spec)))
+        acc.check(all(np.abs(_inhalf(v - w)).max() > 10 * thr for a, v in enumerate(pos) for w in pos[:a]), 'wyckoffpos-lists-no-position-twice-modulo-the-lattice',
+                  'u=%r: %d positions' % (u, len(pos)), sig=('wpdup', trial))
+        if trial >= 4 and trial % 3: continue
         try:
             c2 = c.addbasis(pos, ['Zz'])
             acc.check(len(c2.G) == len(c.G), 'adding-full-orbit-keeps-symmetry', 'u=%r |G| %d -> %d' % (u, len(c.G), len(c2.G)), sig=('add',))
